@@ -32,6 +32,9 @@ PROP = "C15"
 # construct classes the generator avoids: known-finding id -> generator class names (v_cgen.Gen.avoid)
 KNOWN_AVOID = {
     "sizeof-unparenthesized": ["sizeof-noparen"],
+    # outside the generator's grammar (never generated): listed with their replay only
+    "short-int-declarator": [],
+    "function-pointer-declarator": [],
 }
 # construct classes OCCA's parser rejects (outside the property's quantifier); kept out of the generator so that the
 # check is not vacuous.  Listed in the evidence.
@@ -582,6 +585,7 @@ ASSUME = ["the host g++ (-O0 -std=gnu++17, x86-64 LP64) is the reference semanti
 QUICK = (300, 2)        # Hypothesis examples x programs per example
 THOROUGH = (15000, 2)
 TU_GROUP = 12
+ROUND = 300             # Hypothesis examples per generate/evaluate round
 NWORKERS = 8
 
 
@@ -656,92 +660,103 @@ def run(prop, tier, replay, t0):
             for (p, fn, it), v in zip(reg, judge(w0, wd, "reg", [it for _, _, it in reg])):
                 if v["status"] == "fail":
                     out.violations.append((p, "regression input fails: [%s] %s" % (v["kind"], v["what"][:300])))
+                elif v["status"] == "rejected":
+                    # a regression input is a valid C program OCCA accepted when it was recorded
+                    out.violations.append((p, "regression input is no longer parsed by OCCA: %s" % v["what"][:300]))
                 elif v["status"] != "ok":
                     out.notes.append("regression input %s: %s (%s)" % (fn, v["status"], v["what"][:120]))
         out.extra["regression_replays"] = len(reg)
 
-        # ---- pass 1: Hypothesis generates the batches
+        # ---- the search: rounds of <= ROUND Hypothesis examples (generate, then evaluate; bounds the memory of the
+        #      thorough tier).  Round k uses the seed derive(VERIF_SEED, C15, k).
         nbatches, bsize = QUICK if tier == "quick" else THOROUGH
         nbatches = int(os.environ.get("VERIF_C15_BATCHES", nbatches))      # development aid
-        batches = []
-
-        @seed(vlib.derive(vlib.seed(), prop))
-        @settings(max_examples=nbatches + 1, database=None, deadline=None, derandomize=False,
-                  suppress_health_check=list(HealthCheck), phases=[Phase.generate])
-        @given(st.randoms(use_true_random=False))
-        def campaign(rnd):
-            if len(batches) >= nbatches:
-                return
-            descs = []
-            for _ in range(bsize):
-                d = G.program(rnd, avoid, (3, 7))
-                d["expect"] = G.check_program(d)
-                descs.append(d)
-            texts = [G.render_program(d) for d in descs]
-            if all(t == texts[0] for t in texts):
-                return        # Hypothesis' first, all-minimal example: copies of one program; not counted
-            batches.append(descs)
-        t_ = time.time()
-        campaign()
-        TIMES["generate"] = time.time() - t_
-        generated_examples = len(batches)
-        flat = [d for b in batches for d in b]
-        batches = [flat[i:i + TU_GROUP] for i in range(0, len(flat), TU_GROUP)]
-        if generated_examples < nbatches:
-            out.notes.append("only %d of %d batches were generated (Hypothesis discarded the others: entropy budget of one "
-                             "example exceeded)" % (generated_examples, nbatches))
-        if not batches:
-            raise SystemExit("HARNESS-ERROR: no case was generated; not a property verdict")
-
-        # ---- pass 2: evaluate the batches (one worker process per thread)
         seen_src = set()
         nt = set()
         rejected = {}
         rejected_samples = []
         inconclusive = []
         fails = []
+        excl = {}
+        generated = 0
+        generated_examples = 0
         lock = threading.Lock()
         pool_workers = [new_worker("p%d" % i) for i in range(NWORKERS)]
         free = list(range(NWORKERS))
+        nrounds = (nbatches + ROUND - 1) // ROUND
+        for rnd_no in range(nrounds):
+            want = min(ROUND, nbatches - rnd_no * ROUND)
+            batches = []
 
-        def do_batch(bi):
-            with lock:
-                wi = free.pop()
-            try:
-                descs = batches[bi]
-                items = [make_item(d) for d in descs]
-                vs = judge(pool_workers[wi], wd, "b%d" % bi, items)
-                return bi, items, vs
-            finally:
+            @seed(vlib.derive(vlib.seed(), prop, rnd_no))
+            @settings(max_examples=want + 1, database=None, deadline=None, derandomize=False,
+                      suppress_health_check=list(HealthCheck), phases=[Phase.generate])
+            @given(st.randoms(use_true_random=False))
+            def campaign(rnd):
+                if len(batches) >= want:
+                    return
+                descs = []
+                for _ in range(bsize):
+                    d = G.program(rnd, avoid, (3, 7))
+                    d["expect"] = G.check_program(d)
+                    descs.append(d)
+                texts = [G.render_program(d) for d in descs]
+                if all(t == texts[0] for t in texts):
+                    return        # Hypothesis' first, all-minimal example: copies of one program; not counted
+                batches.append(descs)
+            t_ = time.time()
+            campaign()
+            TIMES["generate"] += time.time() - t_
+            generated_examples += len(batches)
+            flat = [d for b in batches for d in b]
+            groups = [flat[i:i + TU_GROUP] for i in range(0, len(flat), TU_GROUP)]
+
+            def do_batch(bi, groups=groups, rnd_no=rnd_no):
                 with lock:
-                    free.append(wi)
+                    wi = free.pop()
+                try:
+                    items = [make_item(d) for d in groups[bi]]
+                    vs = judge(pool_workers[wi], wd, "r%d_b%d" % (rnd_no, bi), items)
+                    return bi, items, vs
+                finally:
+                    with lock:
+                        free.append(wi)
 
-        with ThreadPoolExecutor(max_workers=NWORKERS) as ex:
-            results = list(ex.map(do_batch, range(len(batches))))
-        generated = 0
-        for bi, items, vs in results:
-            for j, (it, v) in enumerate(zip(items, vs)):
-                generated += 1
-                if v["status"] == "rejected":
-                    rejected[v["what"]] = rejected.get(v["what"], 0) + 1
-                    if len(rejected_samples) < 4:
-                        rejected_samples.append({"diagnostic": v.get("diag", "")[:300], "program": it["src"]})
-                    continue
-                if v["status"] == "inconclusive":
-                    inconclusive.append({"what": v["what"], "program": it["src"]})
-                    continue
-                out.evaluations += 1
-                cls, isnt = scaffold_free_classify(it["desc"])
-                for c in cls:
-                    out.classes[c] = out.classes.get(c, 0) + 1
-                if it["src"] not in seen_src:
-                    seen_src.add(it["src"])
-                    if isnt:
-                        nt.add(it["src"])
-                if len(out.samples) < 3 and j == 1:
-                    out.samples.append(it["src"])
-                if v["status"] == "fail":
-                    fails.append((it, v))
+            with ThreadPoolExecutor(max_workers=NWORKERS) as ex:
+                results = list(ex.map(do_batch, range(len(groups))))
+            for bi, items, vs in results:
+                for j, (it, v) in enumerate(zip(items, vs)):
+                    generated += 1
+                    for k, n in it["desc"].get("excluded", {}).items():
+                        excl[k] = excl.get(k, 0) + n
+                    if v["status"] == "rejected":
+                        rejected[v["what"]] = rejected.get(v["what"], 0) + 1
+                        if len(rejected_samples) < 4:
+                            rejected_samples.append({"diagnostic": v.get("diag", "")[:300], "program": it["src"]})
+                        continue
+                    if v["status"] == "inconclusive":
+                        inconclusive.append({"what": v["what"], "program": it["src"]})
+                        continue
+                    out.evaluations += 1
+                    cls, isnt = scaffold_free_classify(it["desc"])
+                    for c in cls:
+                        out.classes[c] = out.classes.get(c, 0) + 1
+                    if it["src"] not in seen_src:
+                        seen_src.add(it["src"])
+                        if isnt:
+                            nt.add(it["src"])
+                    if len(out.samples) < 3 and j == 1:
+                        out.samples.append(it["src"])
+                    if v["status"] == "fail":
+                        fails.append((it, v))
+            if len(fails) >= 200:
+                out.notes.append("search stopped after round %d of %d: %d failing programs already" % (rnd_no + 1, nrounds, len(fails)))
+                break
+        if generated_examples < nbatches and len(fails) < 200:
+            out.notes.append("only %d of %d batches were generated (Hypothesis discarded the others: entropy budget of one "
+                             "example exceeded)" % (generated_examples, nbatches))
+        if not generated:
+            raise SystemExit("HARNESS-ERROR: no case was generated; not a property verdict")
         out.nontrivial = nt
         out.extra["generated"] = generated
         out.extra["rejected_by_occa"] = sum(rejected.values())
@@ -753,7 +768,8 @@ def run(prop, tier, replay, t0):
         if inconclusive:
             out.extra["inconclusive_samples"] = inconclusive[:3]
         out.extra["worker_restarts_after_crash"] = sum(w.restarts for w in workers)
-        out.excluded = {k: "class excluded by construction" for k in sorted(known_ids)}
+        # how often the generator turned away from a construct class that belongs to a listed known finding
+        out.excluded = {kid: sum(excl.get(c, 0) for c in KNOWN_AVOID.get(kid, [])) for kid in sorted(known_ids)}
         if out.evaluations == 0:
             raise SystemExit("HARNESS-ERROR: OCCA accepted none of the %d generated programs; not a property verdict" % generated)
         if out.extra["rejected_by_occa"] * 4 > generated:
